@@ -52,7 +52,7 @@ def run(shard, rec, tier, seed):
                 continue
             rec.count("trees-staged")
             if t.generator_reused:
-                rec.count("trees-generated-by-an-instance-that-read-an-earlier-revision")
+                rec.count("trees-generated-after-a-failed-run-on-a-broken-revision" if t.prior_failed else "trees-generated-by-an-instance-that-read-an-earlier-revision")
             log = frames.FrameLog()
             n = frames.install(log)
             rec.count("classes-wrapped", n)
